@@ -43,12 +43,17 @@ AreaCases == UNION {{[kind |-> "shape", base |-> sh, spelled |-> sp] : sp \in Sp
 
 (* paths with integer segment lengths, and query points *)
 Steps == {<<3, 4>>, <<4, 3>>, <<-3, 4>>, <<5, 12>>, <<6, -8>>, <<7, 0>>, <<0, 5>>, <<-4, -3>>, <<0, -2>>, <<8, 6>>}
+(* longer paths, and closed ones (the last vertex repeats the first) *)
+LongSteps == { << <<7, 0>>, <<0, 5>>, <<-7, 0>>, <<0, -5>> >>, << <<3, 4>>, <<-3, 4>>, <<-3, -4>>, <<3, -4>> >>,
+               << <<3, 4>>, <<4, 3>>, <<5, 12>>, <<6, -8>>, <<0, -2>>, <<8, 6>> >>, << <<8, 6>>, <<-8, -6>> >>,
+               << <<0, 5>>, <<0, 5>>, <<7, 0>>, <<-4, -3>>, <<-3, 4>> >> }
 PathFrom(p0, st) == LET RECURSIVE P(_, _)
                         P(i, cur) == IF i > Len(st) THEN <<cur>> ELSE <<cur>> \o P(i + 1, <<cur[1] + st[i][1], cur[2] + st[i][2]>>)
                     IN P(1, p0)
 Paths == {PathFrom(<<10, 10>>, st) : st \in UNION {[1..n -> Steps] : n \in 1..3}}
+LongPaths == {PathFrom(<<10, 10>>, st) : st \in LongSteps}
 Queries == {<<10, 10>>, <<0, 0>>, <<13, 16>>, <<12, 11>>, <<30, 5>>, <<14, 12>>}
-LineCases == {[kind |-> "line", path |-> p, q |-> q] : p \in {x \in Paths : HashSp([i \in 1..Len(x) |-> [rev |-> x[i][1] % 2 = 0, k |-> x[i][2] % 3, closed |-> TRUE]]) % MS = 0}, q \in Queries}
+LineCases == {[kind |-> "line", path |-> p, q |-> q] : p \in LongPaths, q \in Queries} \cup {[kind |-> "line", path |-> p, q |-> q] : p \in {x \in Paths : HashSp([i \in 1..Len(x) |-> [rev |-> x[i][1] % 2 = 0, k |-> x[i][2] % 3, closed |-> TRUE]]) % MS = 0}, q \in Queries}
 (* points one lattice step off a long oblique segment: the segment runs from (0,0) to k (n+1, n), the point is
    (1,1) + j (n+1, n), so twice the triangle area is exactly 1 and the distance is 1 / |segment| - tiny against the
    coordinates.  The exact squared distance travels with the case; the harness reports the error of the real Distance
